@@ -13,8 +13,8 @@
 // ======================================================================= C10 =
 enum Plan { P_NONE, P_ABORT, P_ERROR, P_TIMEOUT, P_TOOMANY_CONT, P_TOOMANY_ABORT, P_NR_RESUME, P_NR_ABANDON, P_NPLANS };
 static const char* PLAN_NAMES[] = {"none", "abort", "error", "timeout", "toomany-continue", "toomany-abort", "notready-resume", "notready-abandon"};
-enum BufKind { B_TEXT, B_PE, B_ELF, B_EMPTY, B_MANY, B_FIBER, B_TEXT2, B_NKINDS };
-static const char* BUF_NAMES[] = {"text", "pe", "elf", "empty", "many", "fiberbomb", "text2"};
+enum BufKind { B_TEXT, B_PE, B_ELF, B_EMPTY, B_MANY, B_FIBER, B_TEXT2, B_GAPCUT, B_GAP2, B_GAP8, B_NKINDS };
+static const char* BUF_NAMES[] = {"text", "pe", "elf", "empty", "many", "fiberbomb", "text2", "gap-cut-short", "gap-of-2", "gap-of-8"};
 struct Op { int buf; int plan; int k; int entry; int flags; int mdata; };   // entry: 0 mem, 1 file, 2 blocks(2 parts), 3 process memory of a sleeping child
 
 struct H10 { CompileSpec spec; std::vector<std::string> bufs; std::vector<Op> ops; };
@@ -23,6 +23,7 @@ static const char* C10_EXTRA =
   "rule many_ab { strings: $a = \"ab\" condition: #a > 3 }\n"
   "rule many_bystander { strings: $x = \"bystander\" condition: $x }\n"
   "rule refibers { strings: $r = /([a-z0-9_-]{1,32}\\.?){1,16}@example\\.com/ condition: $r }\n"
+  "rule gap48 { strings: $g = /gapx.{4,8}wxyz/ $h = /gapy[0-9]{2,5}z/ condition: any of them }\n"
   "rule not_many { strings: $a = \"ab\" condition: not $a }\n"
   "rule zero_many { strings: $a = \"ab\" $x = \"bystander\" condition: #a == 0 and $x }\n";
 
@@ -45,6 +46,9 @@ static H10 gen_h10(Rng& rng) {
   { std::string m = "bystander "; for (int i = 0; i < 400; i++) m += "ab"; h.bufs[B_MANY] = m; }
   h.bufs[B_FIBER] = "xx " + std::string(40, 'a') + "@example.com bystander";
   h.bufs[B_TEXT2] = gen_text_buffer(rng, "alpha_text reg77ex bystander short@example.com", 300);
+  // data that ends inside a bounded repeat (the fibers in flight die with their repeat counter above zero), then data
+  // whose gap is just outside / just inside the range
+  h.bufs[B_GAPCUT] = "zz gapy1 .... gapx12"; h.bufs[B_GAP2] = "gapx12wxyz gapy1z bystander"; h.bufs[B_GAP8] = "gapx12345678wxyz gapy12345z gapx1234wxyz";
   // one history in eight runs over a rule set without a single string (filesize, uintN, rule references, a global
   // rule in a second namespace): the per-scan cleanup must not depend on there being strings
   bool stringless = rng.chance(1, 8);
@@ -58,7 +62,7 @@ static H10 gen_h10(Rng& rng) {
   bool longrun = !stringless && rng.chance(1, 30);
   int n = longrun ? 260 : (int) rng.range(3, 12);
   for (int i = 0; i < n; i++) {
-    if (longrun) { Op o; o.buf = (i % 3 == 0) ? B_FIBER : (i % 3 == 1) ? B_TEXT2 : B_TEXT; o.plan = P_NONE; o.k = 0; o.entry = 0; o.flags = 3; o.mdata = 0; h.ops.push_back(o); continue; }
+    if (longrun) { static const int LR[] = {B_FIBER, B_GAPCUT, B_GAP2, B_TEXT2, B_GAP8, B_GAPCUT, B_TEXT, B_GAP8}; Op o; o.buf = LR[rng.below(8)]; o.plan = P_NONE; o.k = 0; o.entry = 0; o.flags = 3; o.mdata = 0; h.ops.push_back(o); continue; }
     Op o; o.buf = (int) rng.below(B_NKINDS); o.plan = rng.chance(2, 5) ? P_NONE : (int) rng.below(P_NPLANS);
     o.k = (int) rng.below(40); o.entry = (int) rng.below(3); o.flags = (i > 0 && rng.chance(3, 4)) ? h.ops[i - 1].flags : (int) rng.below(4); o.mdata = (int) rng.below(3);
     if (o.plan == P_NR_RESUME || o.plan == P_NR_ABANDON) o.entry = 2;
